@@ -44,6 +44,9 @@ def run(ctx):
     base = dict(transfer_model="EH", lnk_min=-12.0, lnk_max=10.0, dlnk=0.1, dlog10m=0.05)
     configs = [dict(log_mmin=11.0, Mmax=15.0, z=0.0, hmf_model="Tinker08"), dict(log_mmin=13.0, Mmax=14.0, z=0.0, hmf_model="SMT"),
                dict(log_mmin=10.0, Mmax=13.5, z=2.0, hmf_model="Warren"), dict(log_mmin=12.0, Mmax=14.5, z=0.5, hmf_model="PS")]
+    # the same minimum mass and the same keyword *names* as the first two configurations, other values (a later call must not reuse
+    # anything derived from an earlier one)
+    configs += [dict(log_mmin=11.0, Mmax=15.0, z=1.0, hmf_model="SMT"), dict(log_mmin=13.0, Mmax=14.0, z=0.8, hmf_model="PS")]
     if not quick:
         configs += [dict(log_mmin=9.0, Mmax=12.0, z=4.0, hmf_model="Tinker08"), dict(log_mmin=12.5, Mmax=13.5, z=1.0, hmf_model="Jenkins"), dict(log_mmin=11.0, Mmax=14.0, z=0.0, hmf_model="Watson")]
     with warnings.catch_warnings():
